@@ -97,13 +97,16 @@ def block_st(isa, cfg, data_ok=True, only_data=False, cfi=False):
     return st.one_of(code, code, code, data)
 
 
-def patch_st(isa, cfg, data_ok=True, cfi=False, pdata=False):
+def patch_st(isa, cfg, data_ok=True, cfi=False, pdata=False, palign=False):
     ords = _ord_names(isa)
     terms = [n for n in _term_names(isa) if I.table(isa)[n].patch] if cfg else []
     toks = [insn_st(isa, ords)] * 4
     if pdata:
         toks += [st.fixed_dictionaries({"pd": st.just("byte"), "v": st.lists(st.integers(0, 255), min_size=1, max_size=3)}),
                  st.fixed_dictionaries({"pd": st.sampled_from(["string", "ascii"]), "s": st.sampled_from(["a", "hi"])})]
+    if palign:
+        # alignment directive inside a patch: no bytes, starts a block that carries an alignment entry
+        toks += [st.fixed_dictionaries({"al": st.integers(0, 4)})]
     if cfi:
         toks += [st.fixed_dictionaries({"cfi": st.sampled_from(["adj+", "adj+", "adj-", "rem", "res"])})] * 2
     if terms:
@@ -112,8 +115,8 @@ def patch_st(isa, cfg, data_ok=True, cfi=False, pdata=False):
     return st.fixed_dictionaries({"toks": st.lists(st.one_of(*toks), min_size=1, max_size=5)})
 
 
-def edit_st(isa, cfg, cfi=False, pdata=False):
-    p = patch_st(isa, cfg, cfi=cfi, pdata=pdata)
+def edit_st(isa, cfg, cfi=False, pdata=False, palign=False):
+    p = patch_st(isa, cfg, cfi=cfi, pdata=pdata, palign=palign)
     cb = st.sampled_from([True, True, True, False])
     ins = st.fixed_dictionaries({"op": st.just("insert"), "cb": cb, "b": _small, "i": st.sampled_from([0, 0, 1, 2, 3, 99]), "patch": p})
     rep = st.fixed_dictionaries({"op": st.just("replace"), "cb": cb, "b": _small, "i": st.integers(0, 4),
@@ -126,6 +129,21 @@ def edit_st(isa, cfg, cfi=False, pdata=False):
 _ST_CACHE = {}
 
 
+def _with_chains(edit):
+    """One element in eight is a chain: whole-block deletions of 2-4 consecutive (code) blocks, each with its own
+    retarget_to_proxy flag - the shape in which labels slide across several deleted blocks."""
+    chain = st.tuples(_small, st.booleans(), st.lists(st.booleans(), min_size=2, max_size=4)).map(
+        lambda t: [{"op": "delete", "cb": t[1], "b": t[0] + j, "i": 0, "n": 99, "proxy": p} for j, p in enumerate(t[2])])
+    return st.one_of(edit, edit, edit, edit, edit, edit, edit, chain)
+
+
+def _flatten(items):
+    out = []
+    for it in items:
+        out.extend(it if isinstance(it, list) else [it])
+    return out
+
+
 def scope_edit_st(isa):
     ords = [n for n in _ord_names(isa) if n in ("nop", "nop2", "xor", "push", "pop", "mark")]
     p = st.fixed_dictionaries({"toks": st.lists(insn_st(isa, ords), min_size=1, max_size=2)})
@@ -133,13 +151,14 @@ def scope_edit_st(isa):
                                   "pos": st.sampled_from(["entry", "exit"]), "b": _small, "patch": p})
 
 
-def case_st(tier, pairs=None, cfg=True, max_edits=None, min_edits=1, scopes=False, cfi=False, pdata=False, ivs=False):
+def case_st(tier, pairs=None, cfg=True, max_edits=None, min_edits=1, scopes=False, cfi=False, pdata=False, ivs=False,
+            palign=False):
     pairs = pairs or I.PAIRS
     nb = 6 if tier == "quick" else 10
     ne = max_edits or (5 if tier == "quick" else 9)
 
     def build(pair):
-        key = (pair, tier, cfg, ne, min_edits, scopes, cfi, pdata, ivs)
+        key = (pair, tier, cfg, ne, min_edits, scopes, cfi, pdata, ivs, palign)
         if key not in _ST_CACHE:
             _ST_CACHE[key] = _build(pair)
         return _ST_CACHE[key]
@@ -161,8 +180,10 @@ def case_st(tier, pairs=None, cfg=True, max_edits=None, min_edits=1, scopes=Fals
             "entry": st.one_of(st.none(), _small),
             "cfi": st.just(bool(cfi)),
             "multi_iv": (st.booleans() if ivs else st.just(False)),
+            "eorder": st.one_of(st.just(0), st.integers(0, 255)),
             "edits": st.lists((st.one_of(edit_st(isa, use_cfg, pdata=pdata), edit_st(isa, use_cfg, pdata=pdata), scope_edit_st(isa))
-                               if scopes else edit_st(isa, use_cfg, cfi=cfi, pdata=pdata)), min_size=min_edits, max_size=ne),
+                               if scopes else _with_chains(edit_st(isa, use_cfg, cfi=cfi, pdata=pdata, palign=palign))),
+                              min_size=min_edits, max_size=ne).map(_flatten),
         })
 
     return st.sampled_from(pairs).flatmap(build)
@@ -622,7 +643,7 @@ class Case:
         if not host.code:
             # code patches in data blocks: ordinary instructions only (control
             # flow into or out of data is outside the modelled domain)
-            toks = [t for t in toks if "lab" not in t and "cfi" not in t and ("pd" in t or self.tab[t["t"]].kind == "ord")]
+            toks = [t for t in toks if "lab" not in t and "cfi" not in t and ("pd" in t or "al" in t or self.tab[t["t"]].kind == "ord")]
             own = []
         # balance the patch's own CFI
         if any("cfi" in t for t in toks):
@@ -645,7 +666,7 @@ class Case:
                 bal.append(t)
             # properly nested: close what is still open, innermost first
             toks = bal + [{"cfi": "adj-" if c == "adj+" else "res"} for c in reversed(stack)]
-        if not any("lab" not in t and "cfi" not in t and "pd" not in t for t in toks) and not any("pd" in t for t in toks):
+        if not any("lab" not in t and "cfi" not in t and "pd" not in t and "al" not in t for t in toks) and not any("pd" in t for t in toks):
             toks = list(toks) + [{"t": "nop", "sym": 0, "imm": 0}]
         for k, t in enumerate(toks):
             if "lab" in t:
@@ -667,6 +688,10 @@ class Case:
                 u.text = line
                 items.append(u)
                 lines.append(line)
+                continue
+            if "al" in t:
+                # occupies no bytes (pinned by tests/test_rewriting.py::test_align: no padding inside the interval)
+                lines.append(f".balign {1 << (t['al'] % 5)}")
                 continue
             if "cfi" in t:
                 nm, args = PATCH_CFI[t["cfi"]]
@@ -942,6 +967,20 @@ def _extra_aux(out, aux):
         if data:
             m.aux_data["encodings"] = A({out.blocks[g]: "string" for g in pick(data, 2)}, "mapping<UUID,string>")
             m.aux_data["types"] = A({out.blocks[g]: "uint8_t" for g in pick(data, 2)}, "mapping<UUID,string>")
+    if aux.get("align") and c.isa in ("x64", "ia32"):
+        # alignment entries that hold in the input (largest power of two <= 16 dividing the block's address);
+        # only where a nop is one byte: with 4-byte nops a gap after code that is not a multiple of four is a
+        # documented PaddingError, and the listings here do not keep code 4-aligned
+        al = {}
+        for g in pick(sorted(out.blocks), 3):
+            a = out.blocks[g].address
+            n = 16
+            while n > 1 and a % n:
+                n //= 2
+            if n > 1:
+                al[out.blocks[g]] = n
+        if al:
+            m.aux_data["alignment"] = A(al, "mapping<UUID,uint64_t>")
     if aux.get("special") and code:
         if c.fmt == "elf":
             m.aux_data["elfDynamicInit"] = A(out.blocks[pick(code, 1)[0]], "UUID")
@@ -985,6 +1024,7 @@ def _derive_cfg(out: Built):
         g, _ = c.label_block[sym]
         return out.blocks[g]
 
+    edges = []
     call_sites = []  # (callee block gidx | None, return-site gidx | None)
     for b in c.blocks:
         if not b.code:
@@ -994,19 +1034,19 @@ def _derive_cfg(out: Built):
         nxt = _next_code_block(c, b.gidx)
         k = last.kind
         if k in I.FALLS and nxt is not None:
-            ir.cfg.add(E(src, out.blocks[nxt], L(T.Fallthrough)))
+            edges.append(E(src, out.blocks[nxt], L(T.Fallthrough)))
         if k == "jmp":
-            ir.cfg.add(E(src, target_node(last.sym), L(T.Branch, False, True)))
+            edges.append(E(src, target_node(last.sym), L(T.Branch, False, True)))
         elif k == "jcc":
-            ir.cfg.add(E(src, target_node(last.sym), L(T.Branch, True, True)))
+            edges.append(E(src, target_node(last.sym), L(T.Branch, True, True)))
         elif k == "call":
-            ir.cfg.add(E(src, target_node(last.sym), L(T.Call, False, True)))
+            edges.append(E(src, target_node(last.sym), L(T.Call, False, True)))
             if last.sym not in c.externs:
                 call_sites.append((c.label_block[last.sym][0], nxt))
         elif k == "ijmp":
-            ir.cfg.add(E(src, gtirb.ProxyBlock(module=m), L(T.Branch, False, False)))
+            edges.append(E(src, gtirb.ProxyBlock(module=m), L(T.Branch, False, False)))
         elif k == "icall":
-            ir.cfg.add(E(src, gtirb.ProxyBlock(module=m), L(T.Call, False, False)))
+            edges.append(E(src, gtirb.ProxyBlock(module=m), L(T.Call, False, False)))
     for b in c.blocks:
         if b.code and b.units[-1].kind == "ret":
             src = out.blocks[b.gidx]
@@ -1017,9 +1057,21 @@ def _derive_cfg(out: Built):
                         sites.add(site)
             if sites:
                 for s in sorted(sites):
-                    ir.cfg.add(E(src, out.blocks[s], L(T.Return)))
+                    edges.append(E(src, out.blocks[s], L(T.Return)))
             else:
-                ir.cfg.add(E(src, gtirb.ProxyBlock(module=m), L(T.Return)))
+                edges.append(E(src, gtirb.ProxyBlock(module=m), L(T.Return)))
+    # the CFG is a set: the order in which its edges were added (which is the order the library's loops over
+    # out_edges / in_edges see them) carries no meaning, so it is part of the generated input ("eorder": 0 keeps
+    # the derivation order, k > 0 is a permutation drawn from a fixed congruential sequence seeded with k)
+    k = c.spec.get("eorder") or 0
+    if isinstance(k, int) and k > 0 and len(edges) > 1:
+        x = k
+        for i in range(len(edges) - 1, 0, -1):
+            x = (x * 6364136223846793005 + 1442695040888963407) % (1 << 64)
+            j = (x >> 33) % (i + 1)
+            edges[i], edges[j] = edges[j], edges[i]
+    for e in edges:
+        ir.cfg.add(e)
 
 
 # ---------------------------------------------------------------------------
